@@ -182,6 +182,10 @@ func checkC03(w *World, r *Report) {
 	checkMonoSearch(w, r, tm, tree)
 	checkCapMin(w, r, tm, tree)
 	checkSupplyGuard(w, r, tm, tree)
+	// the clearing price that was computed is the one the auction record keeps (it is what users and queries see)
+	r.Sub(checkC16, "PUB-PRICE")
+	// the allowances that cap the demand are those of the auction being settled
+	r.Sub(checkC19, "PREFIX-RANGE")
 }
 
 func checkMonoSearch(w *World, r *Report, tm *Terms, tree map[*ssa.Function]bool) {
